@@ -648,7 +648,7 @@ func (r *proxyStreamReceiver) Run(
 		defer func() {
 			r.shardManager.RemoveLocalAckChan(r.sourceShardID, r.ackChan)
 			r.shardManager.RemoveLocalReceiverCancelFunc(r.sourceShardID)
-			r.shardManager.UnregisterActiveReceiver(r.sourceShardID)
+			r.shardManager.UnregisterActiveReceiver(r.sourceShardID, r)
 		}()
 	}
 
